@@ -6,9 +6,10 @@
 (*   A, akeys   the original problem (UPJ) and its ground fluents          *)
 (*   wexc       exception class raised by PDDLWriter ("none")              *)
 (*   reader     "up" | "ai";  rexc / stage  exception class raised while   *)
-(*              reading ("none") and where: "parse" (inside the parser) or *)
-(*              "convert" (inside unified_planning's converter of the      *)
-(*              third-party parse result)                                  *)
+(*              reading ("none") and where: "parse" (up), "parse-domain" / *)
+(*              "parse-problem" (the third-party parser reading the domain *)
+(*              / problem text) or "convert" (unified_planning's converter *)
+(*              of the third-party parse result)                           *)
 (*   hasB, B, bkeys  the re-read problem projected to UPJ and renamed back *)
 (*              to A's identifiers with the writer's get_item_named        *)
 (*              (B = A as a placeholder when hasB is FALSE)                *)
@@ -27,9 +28,12 @@
 (*   (iii) unified_planning's own reader failing on the writer's output is *)
 (*         a violation;                                                    *)
 (*   (ii)  the third-party reader failing is tallied, and a violation only *)
-(*         when it reports a missing :requirements flag (the writer should *)
-(*         have declared it) or when unified_planning's converter raises   *)
-(*         anything but its documented rejection;                          *)
+(*         when it reports a missing :requirements flag while reading the  *)
+(*         DOMAIN text (the writer should have declared it; the third-     *)
+(*         party problem parser ignores every declared requirement, so its *)
+(*         complaints about goals are outside the common fragment) or when *)
+(*         unified_planning's converter raises anything but its documented *)
+(*         rejection;                                                      *)
 (*   SameTemporalStructure(A, B) for the temporal sub-corpus: same         *)
 (*         objects / initial state / actions (name, kind, parameter        *)
 (*         types); per durative action and ground instance the same        *)
@@ -89,7 +93,8 @@ ExceptionRules(c) ==
          ELSE Fail(c, 0, "writer-raises-" \o r.wexc, ""))
    ELSE IF r.rexc = "none" THEN TRUE
    ELSE IF r.reader = "up" THEN Fail(c, 0, "up-reader-raises-" \o r.rexc, "")
-   ELSE IF r.rexc = "PDDLMissingRequirementError" THEN Fail(c, 0, "ai-reader-missing-requirement", "")
+   ELSE IF r.rexc = "PDDLMissingRequirementError" /\ r.stage = "parse-domain"
+        THEN Fail(c, 0, "ai-reader-missing-requirement", "")
    ELSE IF r.stage = "convert" /\ r.rexc \notin ConverterRejections
         THEN Fail(c, 0, "ai-converter-raises-" \o r.rexc, "")
    ELSE Tally(c, "ai-reader-outside-common-fragment-" \o r.stage)
